@@ -10,29 +10,47 @@ import random as _random
 
 CLAIM = dict(
     text=("Machine-checked proof (Lean 4) over ALL vertex/resource dictionaries, machines (dead chips, resource "
-          "exceptions), constraint lists, vertex orders, chip orders and RNG outcomes: whatever the sequential placer "
-          "(hence Hilbert, RCM, breadth-first for any order their order functions produce), the random placer and the "
-          "annealer's initial placement / trivial-solution path return is Feasible (every vertex on exactly one working "
-          "chip, demand + reservations <= capacity per chip and resource, location and same-chip constraints honoured) "
-          "- proved through the same-chip merge, the constraint loop and the expansion of merged vertices; the chip scan "
-          "of the sequential placer never exceeds one round per vertex (termination); the sequential placer succeeds "
-          "under the unit-demand hypothesis (counting argument); the decidable oracle equals the specification. Tied to "
-          "the code by exact correspondence (recorded vertex/chip orders, RNG draws, per-step annealing proposals "
-          "replayed through the model of the Python kernel, place/utils.py functions called directly) and by the Lean "
+          "exceptions), constraint lists, vertex orders, chip orders and RNG outcomes. SOUNDNESS: whatever the "
+          "sequential placer (hence Hilbert, RCM, breadth-first for any order their order functions produce), the random "
+          "placer and the annealer with the Python kernel return is Feasible (every vertex on exactly one working chip, "
+          "demand + reservations <= capacity per chip and resource, location and same-chip constraints honoured) - "
+          "proved through the same-chip merge, the constraint loop, the expansion of merged vertices and, for the "
+          "annealer, a state invariant of _step/_get_candidate_swap/_swap/revert (free = capacity - load and >= 0 per "
+          "chip and resource, fixed vertices unmoved, location->vertices lookup consistent) preserved for EVERY proposal "
+          "(source vertex, destination chip, accept bit) and lifted over every proposal list, i.e. every RNG / "
+          "temperature / cost outcome. ONLY DOCUMENTED ERRORS: under the documented domain the models of the sequential "
+          "placer (default or permutation vertex order, every chip order), the random placer and the annealer (initial "
+          "placement and every kernel run) fail only with InsufficientResourceError / InvalidConstraintError (the model's "
+          "BadOracle marks an impossible sequence of RNG draws) - never KeyError/IndexError/ValueError. TERMINATION: the "
+          "chip scan of the sequential placer never exceeds one round per vertex. COMPLETENESS under the unit-demand "
+          "hypothesis: sequential placer (every vertex order / covering chip order), Hilbert placer (coverage "
+          "discharged), random placer (every draw sequence), annealer (every shuffle, every proposal list). HILBERT: "
+          "the model of hilbert.py's generator visits every point of the 2^L x 2^L square exactly once for EVERY "
+          "level L, so hilbert_chip_order lists every chip of every w x h machine exactly once. The decidable oracle "
+          "equals the specification. Tied to the code by exact correspondence (recorded vertex/chip orders, RNG draws, "
+          "per-step annealing proposals replayed through the model of the Python kernel, hilbert() for levels 0..8 and "
+          "the level/chip order for machine sizes up to 256, place/utils.py functions called directly) and by the Lean "
           "Feasible predicate run on every placement of every placer, both annealing kernels included; undocumented "
           "exceptions and failures under the unit-demand hypothesis are reported for every placer."),
     design="3/C02",
-    note=("NOT proved, only validated on every run (exact step-by-step correspondence + Feasible oracle on outputs): the "
-          "annealing swap step invariant (saStep_inv), the only-documented-errors clause as a theorem, completeness of "
-          "the random placer and of the annealer. rig_c_sa (C annealing kernel) is an opaque binary: covered only by "
-          "the Feasible oracle on its outputs. Float cost/temperature arithmetic of the annealer is abstracted to the "
-          "recorded accept decision; termination of the temperature schedule and of the `while dst == src` rejection "
-          "sampling is not proved (bounded in the harness through the on_temperature_change callback). Domain "
-          "(theorem hypotheses, applied to the generators): vertices_resources is a dict of non-negative demands for "
-          "resources the machine has, chip resources non-negative; resource exceptions and per-chip reservations only "
-          "on working chips; a same-chip group is pinned to at most one chip; constraints mention only known vertices; "
-          "custom vertex orders list every vertex; with no vertex at all reservations must fit the chips (documented "
-          "as undefined behaviour otherwise)."),
+    note=("NOT proved, only validated on every run: rig_c_sa (C annealing kernel) is an opaque binary, covered only by the "
+          "Feasible oracle on its outputs (and by undocumented-exception / completeness reporting). The vertex orders "
+          "computed by breadth_first_vertex_order / rcm and RCM's chip order are not modelled: they are recorded and handed "
+          "to the model (the theorems hold for every order; the only-documented-errors theorem needs a permutation of the "
+          "vertices, the completeness theorem a chip order covering the free capacity - proved for Hilbert and "
+          "list(machine) only). Float cost/temperature arithmetic of the annealer is abstracted to the recorded accept "
+          "decision; termination of the temperature schedule and of the `while dst == src` rejection sampling is not "
+          "proved (bounded in the harness through the on_temperature_change callback). The float expression "
+          "int(ceil(log(n, 2.0))) of hilbert_chip_order is modelled by the exact ceil-log2 and compared for n <= 256 "
+          "(coverage holds for any level >= the exact one). Domain (theorem hypotheses WF / Consistent / InDomain / "
+          "EmptyOK, applied to the generators): vertices_resources is a dict of non-negative demands for resources the "
+          "machine has, chip resources non-negative; every resource exception lists the machine's resources; resource "
+          "exceptions and per-chip reservations only on working chips; a same-chip group is pinned to at most one chip; "
+          "constraints mention only known vertices; custom vertex orders are permutations of the vertices; with no "
+          "vertex at all reservations must fit the chips (documented as undefined behaviour otherwise). The shuffles "
+          "of the annealer are oracles assumed to be lists of working chips / of the movable vertices (permutations for "
+          "completeness); annealing proposals are assumed to name placed vertices (a fixed source vertex or dst == src is "
+          "rejected by the model as BadOracle)."),
     technique="Lean 4 theorems over a hand-written model + differential correspondence + Lean spec as oracle")
 
 THEOREMS = ["seqPlace_sound", "randPlace_sound", "saPlace_initial_sound", "seqPlace_terminates",
@@ -40,7 +58,8 @@ THEOREMS = ["seqPlace_sound", "randPlace_sound", "saPlace_initial_sound", "seqPl
             "saStep_inv", "saRun_inv", "saStart_inv", "saPlace_sound",
             "seqPlace_documented", "randPlace_documented", "saPlace_initial_documented",
             "randPlace_complete_unit", "saPlace_initial_complete_unit",
-            "hilbert_curve_exact", "hilbert_covers", "hilbertPlace_complete_unit"]
+            "hilbert_curve_exact", "hilbert_covers", "hilbertPlace_complete_unit",
+            "saStep_documented", "saPlace_documented", "saPlace_complete_unit"]
 
 RULE = ("problems: 0-40 vertices (0-3 units of 1-3 resources, some needing nothing), random nets, machines 1x1..10x10 "
         "with dead chips and per-chip resource exceptions sized so that packing is tight, location constraints (also on "
